@@ -150,8 +150,9 @@ def trees(depth: int):
     elif depth == "both":
         yield from both_composed()
     elif depth == 3:
-        # every 4th depth-2 tree as the non-leaf child (a stated slice: the full depth-3 space is 1.26 M trees x 67 divisors)
-        yield from grow(t for i, t in enumerate(grow(depth1())) if i % 4 == 0)
+        # every 16th depth-2 tree as the non-leaf child (a stated slice: the full depth-3 space is 1.26 M trees x 67 divisors; the
+        # slice of every 4th took 3.5 hours on a loaded machine and was cut)
+        yield from grow(t for i, t in enumerate(grow(depth1())) if i % 16 == 0)
 
 
 def build(t, spelling: int = 0) -> BitLengthSet:
@@ -614,7 +615,7 @@ def finish(tier, M):
     return {
         "bounds": {
             "quick": "lemma: all R for d<=7, |R|<=3 for d<=12, k<=3d+2+far; pad: all leaves subset of 0..9, a<=8, d<=8; trees depth<=2 and the both-operands-composed family, d in 1..16,32,64 (+3 far divisors for small counts), ascending and descending; histories: 5 queries (120 permutations + re-ask) on depth<=1 trees and a slice of depth 2",
-            "thorough": "lemma: all R for d<=9, |R|<=3 for d<=24; pad: leaves subset of 0..11; trees depth<=2 in full and depth 3 over every 4th depth-2 child (one non-leaf child per node) and the both-operands-composed family, d in 1..64 (+255,256,12345 when counts<=8); histories: 6 queries (720 permutations)",
+            "thorough": "lemma: all R for d<=9, |R|<=3 for d<=24; pad: leaves subset of 0..11; trees depth<=2 in full and depth 3 over every 16th depth-2 child (one non-leaf child per node) and the both-operands-composed family, d in 1..64 (+255,256,12345 when counts<=8); histories: 6 queries (720 permutations)",
         }[tier],
         "reference_selfcheck": "ref.bls.selfcheck(): explicit expansion vs modular exponentiation on >1000 (tree, divisor) pairs in every worker",
     }
